@@ -9,8 +9,10 @@ from concurrent.futures import ThreadPoolExecutor
 import common
 import gen
 
-CONFIGS = [(m, d, f, a) for m in (0, 600) for d in (0, 600) for f in (False, True) for a in (False, True)
+CONFIGS = [(m, d, f, a, 600) for m in (0, 600) for d in (0, 600) for f in (False, True) for a in (False, True)
            if not (f and a)]
+# dead-head connections that are faster than the minimal shunting at one location
+CONFIGS += [(600, 0, False, False, 60), (600, 0, False, True, 60), (0, 0, False, False, 60)]
 
 
 def bounds(tier):
@@ -19,14 +21,50 @@ def bounds(tier):
     return {"MaxActs": "3", "MaxMnt": "1", "Starts": "{0,1,2,3}", "Durs": "{1,2}"}
 
 
+def spec_hash():
+    import hashlib
+    h = hashlib.sha256()
+    for f in sorted(os.listdir(common.SPEC)):
+        if f.endswith(".tla"):
+            with open(os.path.join(common.SPEC, f), "rb") as fh:
+                h.update(f.encode())
+                h.update(fh.read())
+    h.update(json.dumps(CONFIGS).encode())
+    return h.hexdigest()[:16]
+
+
 def run_gen(tier, out, emit=True, bnd=None):
-    """One TLC run per configuration, in parallel. Returns the emitted cases."""
+    """One TLC run per configuration, in parallel. Returns the emitted cases. The enumeration does
+    not depend on /repo, so it is cached per specification version."""
     bnd = bnd or bounds(tier)
+    cdir = os.path.join(common.WORK, "cache", "mc_" + spec_hash())
+    os.makedirs(cdir, exist_ok=True)
+    key = "gen_" + "_".join("%s%s" % (k, "".join(ch for ch in str(v) if ch.isalnum())) for k, v in sorted(bnd.items()))
+    cpath = os.path.join(cdir, key + ".json")
+    if emit and os.path.exists(cpath):
+        with open(cpath) as f:
+            rec = json.load(f)
+        out.states += rec["distinct"]
+        out.transitions += rec["generated"]
+        out.tlc_runs.append({"run": "MC:Gen_Tour(cached)", "distinct": rec["distinct"], "generated": rec["generated"],
+                             "wall_s": rec["wall"]})
+        return rec["cases"]
+    s0, g0, t0 = out.states, out.transitions, time.time()
+    cases = _run_gen(out, emit, bnd)
+    if emit:
+        with open(cpath, "w") as f:
+            json.dump({"cases": cases, "distinct": out.states - s0, "generated": out.transitions - g0,
+                       "wall": round(time.time() - t0, 1)}, f)
+    return cases
+
+
+def _run_gen(out, emit, bnd):
 
     def one(cfg):
         consts = dict(bnd)
         consts.update({"Emit": "TRUE" if emit else "FALSE", "CfgShMin": str(cfg[0]), "CfgShDh": str(cfg[1]),
-                       "CfgForbid": "TRUE" if cfg[2] else "FALSE", "CfgAsym": "TRUE" if cfg[3] else "FALSE"})
+                       "CfgForbid": "TRUE" if cfg[2] else "FALSE", "CfgAsym": "TRUE" if cfg[3] else "FALSE",
+                       "CfgDh": str(cfg[4])})
         return cfg, common.run_tlc("Gen_Tour", invariants=["Laws", "EmitCase"], constants=consts, workers=1,
                                    timeout=3000, cont=False, xmx="3g")
 
